@@ -69,6 +69,14 @@ Theorem C17_pipeline_in_step : forall A (m : prog A) w, Jinv w -> PipeOk (snd (r
 Proof. exact pipeline_in_step. Qed.
 Print Assumptions C17_pipeline_in_step.
 
+(* T1: every function of package smtp that locks a mutex (smtp.Client.mutex: cmd, dataCloser.Write / Close, Close, Quit,
+   HasConnection, UpdateDeadline, ...) unlocks it on every return path, by defer or explicitly.  In the model a content
+   write that fails while this is false leaves the mutex locked, and the next method that takes it (Close, cmd,
+   UpdateDeadline) waits for ever; the invariant J says the mutex is never left locked *)
+Theorem C17_source_mutex_released : src_mutex_released = true.
+Proof. exact (eq_refl true). Qed.
+Print Assumptions C17_source_mutex_released.
+
 (* Send / Reset / Close on ANY state of a dialed client in which nothing blocked so far and whose pipeline is in step —
    whether or not a deadline is currently set *)
 Theorem C17_no_hang_send : forall cfg msgs w, fx_arm cfg = true ->
@@ -107,6 +115,16 @@ Example C17_skipped_endresponse_refuted :
   let w0 := mkW (srv0 [DOk; DOk; DStall] None [] [] HsOk) conn0 (cs0f false) [] clk0 in
   outcome_of (run (dial_and_send 8 (cfg17 true) [1%nat]) w0) = Hang.
 Proof. vm_compute. reflexivity. Qed.
+
+(* a return path of dataCloser.Write that skips the Unlock (documentation; [mu_ok] = false): the server answers 354 and
+   stops reading, the content write times out, and the client.Close() that follows waits on the mutex for ever; with
+   the mutex released the same server costs one timeout and the connection is closed *)
+Example C17_leaked_mutex_refuted :
+  let s := srv0 [DOk; DOk; DOk; DOk; DOk; DWrite false false] None [] [] HsOk in
+  outcome_of (run (dial_and_send 8 (cfg17 true) [1%nat]) (mkW s conn0 (cs0g true false) [] clk0)) = Hang /\
+  outcome_of (run (dial_and_send 8 (cfg17 true) [1%nat]) (mkW s conn0 (cs0g true true) [] clk0))
+    = Returned (Err ESend, Some PhSend).
+Proof. vm_compute. auto. Qed.
 
 (* non-vacuity: with the repair the same servers produce a timeout error *)
 Example C17_example_timeout :
